@@ -406,6 +406,9 @@ func fnName(r *RegCfg) (string, error) {
 				}
 				sb.WriteString(strconv.Itoa(s) + f)
 			}
+			if r.Kind == "ptr" { // the parameter object is taken by pointer
+				return base + "_pp_" + sb.String(), nil
+			}
 			return base + "_po_" + sb.String(), nil
 		}
 		sig, err := posSig(3)
@@ -433,7 +436,13 @@ func fnName(r *RegCfg) (string, error) {
 		case "multierr":
 			return fmt.Sprintf("M%d%d%s_pe_%s", r.Slot, r.Slot2, r.Var, sig), nil
 		case "outkn":
+			if r.Kind == "ptr" { // the result object is returned by pointer
+				return fmt.Sprintf("O%d%d%s_knp_%s", r.Slot, r.Slot2, r.Var, sig), nil
+			}
 			return fmt.Sprintf("O%d%d%s_kn_%s", r.Slot, r.Slot2, r.Var, sig), nil
+		}
+		if r.Kind == "ptr" {
+			return fmt.Sprintf("O%d%d%s_kgp_%s", r.Slot, r.Slot2, r.Var, sig), nil
 		}
 		return fmt.Sprintf("O%d%d%s_kg_%s", r.Slot, r.Slot2, r.Var, sig), nil
 	case "init", "initerr":
@@ -1528,7 +1537,7 @@ func serviceValue(r *RegCfg) (any, error) {
 		}
 		return W{ID: id, Reg: r.ID}, nil
 	}
-	if r.Kind != "" {
+	if r.Kind != "" && r.Kind != "ptr" {
 		return kindValue(r)
 	}
 	fn, err := fnName(r)
